@@ -5,30 +5,543 @@ import BiscuitModel.Spec.Datalog
 
 namespace Biscuit
 
+set_option linter.unusedSectionVars false
+
 variable {V E : Type} [DecidableEq V]
+
+/-! ### Bindings -/
+
+theorem Bindings.lookup_nil (n : Bytes) : Bindings.lookup ([] : Bindings V) n = none := rfl
+
+theorem Bindings.lookup_cons (k : Bytes) (v : V) (σ : Bindings V) (n : Bytes) :
+    Bindings.lookup ((k, v) :: σ) n = if k = n then some v else Bindings.lookup σ n := rfl
+
+/-- `τ` extends `σ`: every binding visible in `σ` is visible, unchanged, in `τ`. -/
+def Agree (σ τ : Bindings V) : Prop :=
+  ∀ n v, Bindings.lookup σ n = some v → Bindings.lookup τ n = some v
+
+theorem Agree.refl (σ : Bindings V) : Agree σ σ := fun _ _ h => h
+
+theorem Agree.trans {σ τ ρ : Bindings V} (h₁ : Agree σ τ) (h₂ : Agree τ ρ) : Agree σ ρ :=
+  fun n v h => h₂ n v (h₁ n v h)
+
+theorem Agree.nil (σ : Bindings V) : Agree ([] : Bindings V) σ := by
+  intro n v h; simp [Bindings.lookup_nil] at h
+
+theorem Agree.of_cons {n : Bytes} {v : V} {σ τ : Bindings V}
+    (hn : Bindings.lookup σ n = none) (h : Agree ((n, v) :: σ) τ) : Agree σ τ := by
+  intro m w hm
+  apply h
+  rw [Bindings.lookup_cons]
+  split
+  · next heq => subst heq; rw [hn] at hm; cases hm
+  · exact hm
+
+/-! ### substTerms -/
+
+theorem substTerms_mono {σ τ : Bindings V} (h : Agree σ τ) :
+    ∀ (ts : List (Term V)) (vs : List V), substTerms σ ts = some vs → substTerms τ ts = some vs
+  | [], vs, hs => by simpa [substTerms] using hs
+  | .const c :: ts, vs, hs => by
+    simp only [substTerms, Option.map_eq_some_iff] at hs ⊢
+    obtain ⟨a, ha, rfl⟩ := hs
+    exact ⟨a, substTerms_mono h ts a ha, rfl⟩
+  | .var n :: ts, vs, hs => by
+    simp only [substTerms] at hs ⊢
+    cases hl : Bindings.lookup σ n with
+    | none => simp [hl] at hs
+    | some v =>
+      rw [hl] at hs; rw [h n v hl]
+      simp only [Option.map_eq_some_iff] at hs ⊢
+      obtain ⟨a, ha, rfl⟩ := hs
+      exact ⟨a, substTerms_mono h ts a ha, rfl⟩
+
+theorem substTerms_congr {σ τ : Bindings V}
+    (h : ∀ n, Bindings.lookup σ n = Bindings.lookup τ n) :
+    ∀ ts : List (Term V), substTerms σ ts = substTerms τ ts
+  | [] => rfl
+  | .const c :: ts => by simp only [substTerms, substTerms_congr h ts]
+  | .var n :: ts => by simp only [substTerms, substTerms_congr h ts, h n]
+
+theorem substTerms_defined {σ : Bindings V} :
+    ∀ (ts : List (Term V)) (vs : List V), substTerms σ ts = some vs →
+      ∀ n ∈ termVars ts, ∃ v, Bindings.lookup σ n = some v
+  | [], _, _, n, hn => by simp [termVars] at hn
+  | .const c :: ts, vs, hs, n, hn => by
+    simp only [substTerms, Option.map_eq_some_iff] at hs
+    obtain ⟨a, ha, _⟩ := hs
+    simp only [termVars] at hn
+    exact substTerms_defined ts a ha n hn
+  | .var m :: ts, vs, hs, n, hn => by
+    simp only [substTerms] at hs
+    cases hl : Bindings.lookup σ m with
+    | none => simp [hl] at hs
+    | some v =>
+      rw [hl] at hs
+      simp only [Option.map_eq_some_iff] at hs
+      obtain ⟨a, ha, _⟩ := hs
+      simp only [termVars, List.mem_cons] at hn
+      rcases hn with rfl | hn
+      · exact ⟨v, hl⟩
+      · exact substTerms_defined ts a ha n hn
+
+theorem substHead_mono {σ τ : Bindings V} (h : Agree σ τ) (p : Pred V) (g : Fact V)
+    (hs : substHead p σ = some g) : substHead p τ = some g := by
+  simp only [substHead, Option.map_eq_some_iff] at hs ⊢
+  obtain ⟨a, ha, rfl⟩ := hs
+  exact ⟨a, substTerms_mono h _ _ ha, rfl⟩
+
+theorem substHead_congr {σ τ : Bindings V}
+    (h : ∀ n, Bindings.lookup σ n = Bindings.lookup τ n) (p : Pred V) :
+    substHead p σ = substHead p τ := by
+  simp only [substHead, substTerms_congr h]
+
+/-! ### unifyTerms -/
+
+theorem unifyTerms_sound : ∀ (ts : List (Term V)) (vs : List V) (σ τ : Bindings V),
+    unifyTerms ts vs σ = some τ →
+    Agree σ τ ∧ substTerms τ ts = some vs ∧
+      (∀ n v, Bindings.lookup τ n = some v → Bindings.lookup σ n = some v ∨ n ∈ termVars ts) := by
+  intro ts
+  induction ts with
+  | nil =>
+    intro vs σ τ h
+    cases vs with
+    | nil =>
+      simp only [unifyTerms, Option.some.injEq] at h
+      subst h
+      exact ⟨Agree.refl _, rfl, fun n v hv => Or.inl hv⟩
+    | cons v vs => simp [unifyTerms] at h
+  | cons t ts ih =>
+    intro vs σ τ h
+    cases vs with
+    | nil => cases t <;> simp [unifyTerms] at h
+    | cons v vs =>
+      cases t with
+      | const c =>
+        simp only [unifyTerms] at h
+        split at h
+        · next hc =>
+          subst hc
+          obtain ⟨h1, h2, h3⟩ := ih vs σ τ h
+          refine ⟨h1, ?_, ?_⟩
+          · simp [substTerms, h2]
+          · intro n w hw
+            simpa [termVars] using h3 n w hw
+        · cases h
+      | var n =>
+        simp only [unifyTerms] at h
+        split at h
+        · next w hw =>
+          split at h
+          · next hwv =>
+            subst hwv
+            obtain ⟨h1, h2, h3⟩ := ih vs σ τ h
+            refine ⟨h1, ?_, ?_⟩
+            · simp [substTerms, h2, h1 n w hw]
+            · intro m u hu
+              rcases h3 m u hu with h' | h'
+              · exact Or.inl h'
+              · exact Or.inr (by simp [termVars, h'])
+          · cases h
+        · next hn =>
+          obtain ⟨h1, h2, h3⟩ := ih vs ((n, v) :: σ) τ h
+          have hnv : Bindings.lookup τ n = some v := by
+            apply h1; simp [Bindings.lookup_cons]
+          refine ⟨Agree.of_cons hn h1, ?_, ?_⟩
+          · simp [substTerms, h2, hnv]
+          · intro m u hu
+            rcases h3 m u hu with h' | h'
+            · rw [Bindings.lookup_cons] at h'
+              split at h'
+              · next heq => subst heq; exact Or.inr (by simp [termVars])
+              · exact Or.inl h'
+            · exact Or.inr (by simp [termVars, h'])
+
+theorem unifyTerms_complete : ∀ (ts : List (Term V)) (vs : List V) (σ σ' : Bindings V),
+    substTerms σ' ts = some vs → Agree σ σ' →
+    ∃ τ, unifyTerms ts vs σ = some τ ∧ Agree τ σ' := by
+  intro ts
+  induction ts with
+  | nil =>
+    intro vs σ σ' hs ha
+    simp only [substTerms, Option.some.injEq] at hs
+    subst hs
+    exact ⟨σ, rfl, ha⟩
+  | cons t ts ih =>
+    intro vs σ σ' hs ha
+    cases t with
+    | const c =>
+      simp only [substTerms, Option.map_eq_some_iff] at hs
+      obtain ⟨a, has, rfl⟩ := hs
+      obtain ⟨τ, h1, h2⟩ := ih a σ σ' has ha
+      exact ⟨τ, by simp [unifyTerms, h1], h2⟩
+    | var n =>
+      simp only [substTerms] at hs
+      cases hl : Bindings.lookup σ' n with
+      | none => simp [hl] at hs
+      | some v =>
+        rw [hl] at hs
+        simp only [Option.map_eq_some_iff] at hs
+        obtain ⟨a, has, rfl⟩ := hs
+        cases hσ : Bindings.lookup σ n with
+        | some w =>
+          have : w = v := by
+            have := ha n w hσ
+            rw [hl] at this
+            exact (Option.some.inj this).symm
+          subst this
+          obtain ⟨τ, h1, h2⟩ := ih a σ σ' has ha
+          exact ⟨τ, by simp [unifyTerms, hσ, h1], h2⟩
+        | none =>
+          have ha' : Agree ((n, v) :: σ) σ' := by
+            intro m u hm
+            rw [Bindings.lookup_cons] at hm
+            split at hm
+            · next heq => subst heq; cases hm; exact hl
+            · exact ha m u hm
+          obtain ⟨τ, h1, h2⟩ := ih a ((n, v) :: σ) σ' has ha'
+          exact ⟨τ, by simp [unifyTerms, hσ, h1], h2⟩
+
+/-! ### unifyPred / solve -/
+
+theorem unifyPred_sound (p : Pred V) (f : Fact V) (σ τ : Bindings V)
+    (h : unifyPred p f σ = some τ) :
+    Agree σ τ ∧ substHead p τ = some f ∧
+      (∀ n v, Bindings.lookup τ n = some v →
+        Bindings.lookup σ n = some v ∨ n ∈ termVars p.terms) := by
+  simp only [unifyPred] at h
+  split at h
+  · next hn =>
+    obtain ⟨h1, h2, h3⟩ := unifyTerms_sound _ _ _ _ h
+    refine ⟨h1, ?_, h3⟩
+    cases f
+    simp only [substHead, h2, Option.map_some]
+    simp_all
+  · cases h
+
+theorem unifyPred_complete (p : Pred V) (f : Fact V) (σ σ' : Bindings V)
+    (hs : substHead p σ' = some f) (ha : Agree σ σ') :
+    ∃ τ, unifyPred p f σ = some τ ∧ Agree τ σ' := by
+  simp only [substHead, Option.map_eq_some_iff] at hs
+  obtain ⟨a, has, rfl⟩ := hs
+  obtain ⟨τ, h1, h2⟩ := unifyTerms_complete _ _ σ σ' has ha
+  exact ⟨τ, by simp [unifyPred, h1], h2⟩
+
+theorem mem_bodyVars_cons (p : Pred V) (ps : List (Pred V)) (n : Bytes) :
+    n ∈ bodyVars (p :: ps) ↔ n ∈ termVars p.terms ∨ n ∈ bodyVars ps := by
+  simp [bodyVars]
+
+theorem solve_sound (S : List (Fact V)) : ∀ (body : List (Pred V)) (σ τ : Bindings V),
+    τ ∈ solve S body σ →
+    Agree σ τ ∧ (∀ p ∈ body, ∃ g, substHead p τ = some g ∧ g ∈ S) ∧
+      (∀ n v, Bindings.lookup τ n = some v →
+        Bindings.lookup σ n = some v ∨ n ∈ bodyVars body) := by
+  intro body
+  induction body with
+  | nil =>
+    intro σ τ h
+    simp only [solve, List.mem_singleton] at h
+    subst h
+    exact ⟨Agree.refl _, by simp, fun n v hv => Or.inl hv⟩
+  | cons p ps ih =>
+    intro σ τ h
+    simp only [solve, List.mem_flatMap] at h
+    obtain ⟨f, hf, hτ⟩ := h
+    cases hu : unifyPred p f σ with
+    | none => simp [hu] at hτ
+    | some σ₁ =>
+      rw [hu] at hτ
+      obtain ⟨a1, a2, a3⟩ := unifyPred_sound p f σ σ₁ hu
+      obtain ⟨b1, b2, b3⟩ := ih σ₁ τ hτ
+      refine ⟨a1.trans b1, ?_, ?_⟩
+      · intro q hq
+        rcases List.mem_cons.mp hq with rfl | hq
+        · exact ⟨f, substHead_mono b1 _ _ a2, hf⟩
+        · exact b2 q hq
+      · intro n v hv
+        rw [mem_bodyVars_cons]
+        rcases b3 n v hv with h' | h'
+        · rcases a3 n v h' with h'' | h''
+          · exact Or.inl h''
+          · exact Or.inr (Or.inl h'')
+        · exact Or.inr (Or.inr h')
+
+theorem solve_complete (S : List (Fact V)) : ∀ (body : List (Pred V)) (σ σ' : Bindings V),
+    (∀ p ∈ body, ∃ g, substHead p σ' = some g ∧ g ∈ S) → Agree σ σ' →
+    ∃ τ, τ ∈ solve S body σ ∧ Agree τ σ' := by
+  intro body
+  induction body with
+  | nil =>
+    intro σ σ' _ ha
+    exact ⟨σ, by simp [solve], ha⟩
+  | cons p ps ih =>
+    intro σ σ' hb ha
+    obtain ⟨g, hg, hgS⟩ := hb p (List.mem_cons_self ..)
+    obtain ⟨σ₁, h1, h2⟩ := unifyPred_complete p g σ σ' hg ha
+    obtain ⟨τ, h3, h4⟩ := ih σ₁ σ' (fun q hq => hb q (List.mem_cons_of_mem _ hq)) h2
+    refine ⟨τ, ?_, h4⟩
+    simp only [solve, List.mem_flatMap]
+    exact ⟨g, hgS, by rw [h1]; exact h3⟩
+
+/-- A substitution that instantiates the whole body is defined on all body variables. -/
+theorem body_defined (body : List (Pred V)) (σ : Bindings V)
+    (h : ∀ p ∈ body, ∃ g, substHead p σ = some g) :
+    ∀ n ∈ bodyVars body, ∃ v, Bindings.lookup σ n = some v := by
+  intro n hn
+  simp only [bodyVars, List.mem_flatMap] at hn
+  obtain ⟨p, hp, hnp⟩ := hn
+  obtain ⟨g, hg⟩ := h p hp
+  simp only [substHead, Option.map_eq_some_iff] at hg
+  obtain ⟨a, ha, _⟩ := hg
+  exact substTerms_defined _ _ ha n hnp
+
+/-- Two substitutions, one extending the other, the larger bound only on body
+variables and the smaller defined on all of them, are lookup-equal. -/
+theorem lookup_eq_of_agree (body : List (Pred V)) (τ σ' : Bindings V)
+    (ha : Agree τ σ')
+    (hdef : ∀ n ∈ bodyVars body, ∃ v, Bindings.lookup τ n = some v)
+    (hdom : ∀ n v, Bindings.lookup σ' n = some v → n ∈ bodyVars body) :
+    ∀ n, Bindings.lookup τ n = Bindings.lookup σ' n := by
+  intro n
+  cases h' : Bindings.lookup σ' n with
+  | some v =>
+    obtain ⟨w, hw⟩ := hdef n (hdom n v h')
+    have := ha n w hw
+    rw [h'] at this
+    rw [hw, this]
+  | none =>
+    cases hτ : Bindings.lookup τ n with
+    | none => rfl
+    | some w =>
+      have := ha n w hτ
+      rw [h'] at this
+      cases this
+
+/-! ### checkExprs -/
+
+theorem checkExprs_congr (ev : Bindings V → E → Outcome Bool) (hev : EvRespects ev)
+    {σ τ : Bindings V} (h : ∀ n, Bindings.lookup σ n = Bindings.lookup τ n) :
+    ∀ es : List E, checkExprs ev σ es = checkExprs ev τ es
+  | [] => rfl
+  | e :: es => by
+    simp only [checkExprs, hev σ τ h e, checkExprs_congr ev hev h es]
+
+/-! ### insertFact / insertAll -/
+
+theorem mem_insertFact (s : List (Fact V)) (g f : Fact V) :
+    f ∈ insertFact s g ↔ f ∈ s ∨ f = g := by
+  unfold insertFact
+  split
+  · next hc =>
+    have hg : g ∈ s := by simpa using hc
+    constructor
+    · exact Or.inl
+    · rintro (h | rfl)
+      · exact h
+      · exact hg
+  · simp
+
+theorem nodup_insertFact (s : List (Fact V)) (g : Fact V) (hs : s.Nodup) :
+    (insertFact s g).Nodup := by
+  unfold insertFact
+  split
+  · exact hs
+  · next hc =>
+    have hg : g ∉ s := by simpa using hc
+    rw [List.nodup_append]
+    refine ⟨hs, by simp, ?_⟩
+    intro a ha b hb
+    simp only [List.mem_singleton] at hb
+    subst hb
+    intro heq; subst heq; exact hg ha
+
+theorem mem_insertAll : ∀ (new s : List (Fact V)) (f : Fact V),
+    f ∈ insertAll s new ↔ f ∈ s ∨ f ∈ new
+  | [], s, f => by simp [insertAll]
+  | g :: gs, s, f => by
+    simp only [insertAll, mem_insertAll gs, mem_insertFact, List.mem_cons, or_assoc]
+
+theorem nodup_insertAll : ∀ (new s : List (Fact V)), s.Nodup → (insertAll s new).Nodup
+  | [], s, hs => by simpa [insertAll] using hs
+  | g :: gs, s, hs => by
+    simp only [insertAll]
+    exact nodup_insertAll gs _ (nodup_insertFact s g hs)
+
+theorem insertFact_prefix (s : List (Fact V)) (g : Fact V) : ∃ t, insertFact s g = s ++ t := by
+  unfold insertFact
+  split
+  · exact ⟨[], by simp⟩
+  · exact ⟨[g], rfl⟩
+
+theorem insertAll_prefix : ∀ (new s : List (Fact V)), ∃ t, insertAll s new = s ++ t
+  | [], s => ⟨[], by simp [insertAll]⟩
+  | g :: gs, s => by
+    obtain ⟨t₁, h₁⟩ := insertFact_prefix s g
+    obtain ⟨t₂, h₂⟩ := insertAll_prefix gs (insertFact s g)
+    exact ⟨t₁ ++ t₂, by rw [insertAll, h₂, h₁, List.append_assoc]⟩
+
+theorem insertAll_eq_of_length (s new : List (Fact V))
+    (h : (insertAll s new).length = s.length) : insertAll s new = s := by
+  obtain ⟨t, ht⟩ := insertAll_prefix new s
+  rw [ht] at h ⊢
+  simp only [List.length_append] at h
+  have : t = [] := List.eq_nil_of_length_eq_zero (by omega)
+  simp [this]
+
+/-! ### applyCombos / applyRule -/
+
+theorem applyCombos_spec (ev : Bindings V → E → Outcome Bool) (r : Rule V E) :
+    ∀ (cs : List (Bindings V)) (acc out : List (Fact V)),
+    applyCombos ev r cs acc = (out, none) → ∀ f,
+    (f ∈ out ↔ f ∈ acc ∨
+      ∃ σ, σ ∈ cs ∧ checkExprs ev σ r.exprs = .ok true ∧ substHead r.head σ = some f) := by
+  intro cs
+  induction cs with
+  | nil =>
+    intro acc out h f
+    simp only [applyCombos, Prod.mk.injEq, and_true] at h
+    subst h
+    simp
+  | cons σ rest ih =>
+    intro acc out h f
+    simp only [applyCombos] at h
+    split at h
+    · simp at h
+    · simp at h
+    · next hc =>
+      rw [ih acc out h f]
+      constructor
+      · rintro (h' | ⟨τ, hτ, h1, h2⟩)
+        · exact Or.inl h'
+        · exact Or.inr ⟨τ, List.mem_cons_of_mem _ hτ, h1, h2⟩
+      · rintro (h' | ⟨τ, hτ, h1, h2⟩)
+        · exact Or.inl h'
+        · rcases List.mem_cons.mp hτ with rfl | hτ
+          · rw [hc] at h1; cases h1
+          · exact Or.inr ⟨τ, hτ, h1, h2⟩
+    · next hc =>
+      split at h
+      · simp at h
+      · next g hg =>
+        rw [ih _ out h f, mem_insertFact]
+        constructor
+        · rintro ((h' | rfl) | ⟨τ, hτ, h1, h2⟩)
+          · exact Or.inl h'
+          · exact Or.inr ⟨σ, List.mem_cons_self .., hc, hg⟩
+          · exact Or.inr ⟨τ, List.mem_cons_of_mem _ hτ, h1, h2⟩
+        · rintro (h' | ⟨τ, hτ, h1, h2⟩)
+          · exact Or.inl (Or.inl h')
+          · rcases List.mem_cons.mp hτ with rfl | hτ
+            · rw [hg] at h2; cases h2; exact Or.inl (Or.inr rfl)
+            · exact Or.inr ⟨τ, hτ, h1, h2⟩
 
 theorem applyRule_spec (ev : Bindings V → E → Outcome Bool) (hev : EvRespects ev)
     (r : Rule V E) (S acc out : List (Fact V))
     (h : applyRule ev r S acc = (out, none)) (f : Fact V) :
     f ∈ out ↔ f ∈ acc ∨ ∃ σ, Sat ev r S σ ∧ instPred r.head σ = some f := by
-  sorry
+  unfold applyRule at h
+  rw [applyCombos_spec ev r _ acc out h f]
+  constructor
+  · rintro (h' | ⟨τ, hτ, h1, h2⟩)
+    · exact Or.inl h'
+    · obtain ⟨_, b2, b3⟩ := solve_sound S r.body [] τ hτ
+      refine Or.inr ⟨τ, ⟨b2, ?_, h1⟩, h2⟩
+      intro n v hv
+      rcases b3 n v hv with h'' | h''
+      · simp [Bindings.lookup_nil] at h''
+      · exact h''
+  · rintro (h' | ⟨σ', hsat, hhead⟩)
+    · exact Or.inl h'
+    · obtain ⟨τ, hτ, hag⟩ := solve_complete S r.body [] σ' hsat.body (Agree.nil _)
+      obtain ⟨_, b2, _⟩ := solve_sound S r.body [] τ hτ
+      have hdef := body_defined r.body τ (fun p hp => (b2 p hp).imp fun g hg => hg.1)
+      have heq := lookup_eq_of_agree r.body τ σ' hag hdef hsat.dom
+      refine Or.inr ⟨τ, hτ, ?_, ?_⟩
+      · rw [checkExprs_congr ev hev heq]; exact hsat.exprs
+      · rw [substHead_congr heq]; exact hhead
 
-theorem run_sound (ev : Bindings V → E → Outcome Bool) (hev : EvRespects ev)
-    (maxFacts : Nat) (P : List (Rule V E)) (maxIter : Nat) (F W : List (Fact V))
-    (h : run ev maxFacts P maxIter F = (W, none)) :
-    ∀ f ∈ W, Derivable ev P F f := by
-  sorry
+/-! ### stepAll -/
 
-theorem run_complete (ev : Bindings V → E → Outcome Bool) (hev : EvRespects ev)
-    (maxFacts : Nat) (P : List (Rule V E)) (maxIter : Nat) (F W : List (Fact V))
-    (h : run ev maxFacts P maxIter F = (W, none)) :
-    ∀ f, Derivable ev P F f → f ∈ W := by
-  sorry
+theorem stepAll_spec (ev : Bindings V → E → Outcome Bool) (hev : EvRespects ev)
+    (S : List (Fact V)) : ∀ (P : List (Rule V E)) (acc out : List (Fact V)),
+    stepAll ev S P acc = (out, none) → ∀ f,
+    (f ∈ out ↔ f ∈ acc ∨ ∃ r, r ∈ P ∧ ∃ σ, Sat ev r S σ ∧ instPred r.head σ = some f) := by
+  intro P
+  induction P with
+  | nil =>
+    intro acc out h f
+    simp only [stepAll, Prod.mk.injEq, and_true] at h
+    subst h
+    simp
+  | cons r rs ih =>
+    intro acc out h f
+    simp only [stepAll] at h
+    split at h
+    · next acc' hr =>
+      rw [ih acc' out h f, applyRule_spec ev hev r S acc acc' hr f]
+      constructor
+      · rintro ((h' | ⟨σ, h1, h2⟩) | ⟨q, hq, σ, h1, h2⟩)
+        · exact Or.inl h'
+        · exact Or.inr ⟨r, List.mem_cons_self .., σ, h1, h2⟩
+        · exact Or.inr ⟨q, List.mem_cons_of_mem _ hq, σ, h1, h2⟩
+      · rintro (h' | ⟨q, hq, σ, h1, h2⟩)
+        · exact Or.inl (Or.inl h')
+        · rcases List.mem_cons.mp hq with rfl | hq
+          · exact Or.inl (Or.inr ⟨σ, h1, h2⟩)
+          · exact Or.inr ⟨q, hq, σ, h1, h2⟩
+    · simp at h
 
-theorem run_nodup (ev : Bindings V → E → Outcome Bool)
-    (maxFacts : Nat) (P : List (Rule V E)) (maxIter : Nat) (F W : List (Fact V))
-    (hF : F.Nodup) (h : run ev maxFacts P maxIter F = (W, none)) : W.Nodup := by
-  sorry
+/-! ### run -/
+
+/-- Invariant principle for successful runs. -/
+theorem run_invariant (ev : Bindings V → E → Outcome Bool)
+    (maxFacts : Nat) (P : List (Rule V E)) (Q : List (Fact V) → Prop)
+    (hstep : ∀ S new, Q S → stepAll ev S P [] = (new, none) → Q (insertAll S new)) :
+    ∀ (n : Nat) (F W : List (Fact V)), Q F → run ev maxFacts P n F = (W, none) → Q W := by
+  intro n
+  induction n with
+  | zero => intro F W _ h; simp [run] at h
+  | succ n ih =>
+    intro F W hQ h
+    simp only [run] at h
+    split at h
+    · simp at h
+    · next new hs =>
+      have hQ' := hstep F new hQ hs
+      split at h
+      · simp at h
+      · split at h
+        · simp only [Prod.mk.injEq, and_true] at h
+          subst h; exact hQ'
+        · exact ih _ W hQ' h
+
+theorem run_fixpoint_aux (ev : Bindings V → E → Outcome Bool)
+    (maxFacts : Nat) (P : List (Rule V E)) :
+    ∀ (n : Nat) (F W : List (Fact V)), run ev maxFacts P n F = (W, none) →
+    ∃ new, stepAll ev W P [] = (new, none) ∧ ∀ f ∈ new, f ∈ W := by
+  intro n
+  induction n with
+  | zero => intro F W h; simp [run] at h
+  | succ n ih =>
+    intro F W h
+    simp only [run] at h
+    split at h
+    · simp at h
+    · next new hs =>
+      split at h
+      · simp at h
+      · split at h
+        · next hlen =>
+          simp only [Prod.mk.injEq, and_true] at h
+          have heq := insertAll_eq_of_length F new hlen
+          rw [heq] at h
+          subst h
+          refine ⟨new, hs, ?_⟩
+          intro f hf
+          rw [← heq, mem_insertAll]
+          exact Or.inr hf
+        · exact ih _ W h
 
 theorem derivable_least (ev : Bindings V → E → Outcome Bool)
     (P : List (Rule V E)) (F : List (Fact V)) (M : Fact V → Prop)
@@ -39,15 +552,107 @@ theorem derivable_least (ev : Bindings V → E → Outcome Bool)
       checkExprs ev σ r.exprs = .ok true →
       instPred r.head σ = some f → M f) :
     ∀ f, Derivable ev P F f → M f := by
-  sorry
+  intro f hd
+  induction hd with
+  | base hf => exact hbase _ hf
+  | rule hr hsome _ hdom hex hhead ih =>
+    refine hclosed _ hr _ _ ?_ hdom hex hhead
+    intro p hp
+    have := hsome p hp
+    rw [Option.isSome_iff_exists] at this
+    obtain ⟨g, hg⟩ := this
+    exact ⟨g, hg, ih p hp g hg⟩
+
+/-- Derivability from derivable facts is derivability. -/
+theorem derivable_trans (ev : Bindings V → E → Outcome Bool)
+    (P : List (Rule V E)) (F F' : List (Fact V))
+    (hF' : ∀ g ∈ F', Derivable ev P F g) :
+    ∀ f, Derivable ev P F' f → Derivable ev P F f := by
+  intro f hd
+  induction hd with
+  | base hf => exact hF' _ hf
+  | rule hr hsome _ hdom hex hhead ih =>
+    exact Derivable.rule hr hsome ih hdom hex hhead
+
+theorem run_sound (ev : Bindings V → E → Outcome Bool) (hev : EvRespects ev)
+    (maxFacts : Nat) (P : List (Rule V E)) (maxIter : Nat) (F W : List (Fact V))
+    (h : run ev maxFacts P maxIter F = (W, none)) :
+    ∀ f ∈ W, Derivable ev P F f := by
+  refine run_invariant ev maxFacts P (fun S => ∀ f ∈ S, Derivable ev P F f) ?_
+    maxIter F W (fun f hf => Derivable.base hf) h
+  intro S new hS hs f hf
+  rw [mem_insertAll] at hf
+  rcases hf with hf | hf
+  · exact hS f hf
+  · rw [stepAll_spec ev hev S P [] new hs f] at hf
+    rcases hf with hf | ⟨r, hr, σ, hsat, hhead⟩
+    · cases hf
+    · apply derivable_trans ev P F S hS
+      refine Derivable.rule hr ?_ ?_ hsat.dom hsat.exprs hhead
+      · intro p hp
+        obtain ⟨g, hg, _⟩ := hsat.body p hp
+        simp [hg]
+      · intro p hp g hg
+        obtain ⟨g', hg', hmem⟩ := hsat.body p hp
+        rw [hg] at hg'
+        cases hg'
+        exact Derivable.base hmem
 
 theorem run_fixpoint (ev : Bindings V → E → Outcome Bool)
     (maxFacts : Nat) (P : List (Rule V E)) (maxIter : Nat) (F W : List (Fact V))
     (h : run ev maxFacts P maxIter F = (W, none)) :
-    ∃ new, stepAll ev W P [] = (new, none) ∧ ∀ f ∈ new, f ∈ W := by
-  sorry
+    ∃ new, stepAll ev W P [] = (new, none) ∧ ∀ f ∈ new, f ∈ W :=
+  run_fixpoint_aux ev maxFacts P maxIter F W h
+
+theorem run_complete (ev : Bindings V → E → Outcome Bool) (hev : EvRespects ev)
+    (maxFacts : Nat) (P : List (Rule V E)) (maxIter : Nat) (F W : List (Fact V))
+    (h : run ev maxFacts P maxIter F = (W, none)) :
+    ∀ f, Derivable ev P F f → f ∈ W := by
+  have hsub : ∀ f ∈ F, f ∈ W := by
+    refine run_invariant ev maxFacts P (fun S => ∀ f ∈ F, f ∈ S) ?_ maxIter F W
+      (fun f hf => hf) h
+    intro S new hS _ f hf
+    rw [mem_insertAll]
+    exact Or.inl (hS f hf)
+  obtain ⟨new, hs, hnew⟩ := run_fixpoint ev maxFacts P maxIter F W h
+  apply derivable_least ev P F (fun f => f ∈ W) hsub
+  intro r hr σ f hbody hdom hex hhead
+  apply hnew
+  rw [stepAll_spec ev hev W P [] new hs f]
+  exact Or.inr ⟨r, hr, σ, ⟨hbody, hdom, hex⟩, hhead⟩
+
+theorem run_nodup (ev : Bindings V → E → Outcome Bool)
+    (maxFacts : Nat) (P : List (Rule V E)) (maxIter : Nat) (F W : List (Fact V))
+    (hF : F.Nodup) (h : run ev maxFacts P maxIter F = (W, none)) : W.Nodup := by
+  refine run_invariant ev maxFacts P (fun S => S.Nodup) ?_ maxIter F W hF h
+  intro S new hS _
+  exact nodup_insertAll new S hS
+
+/-! ### The concrete evaluator -/
+
+theorem stepOp_congr (cfg : EvalCfg) {σ τ : Bindings Val}
+    (h : ∀ n, Bindings.lookup σ n = Bindings.lookup τ n) (st : List Val) (op : Op) :
+    stepOp cfg σ st op = stepOp cfg τ st op := by
+  cases op with
+  | value t =>
+    cases t with
+    | var n => simp only [stepOp, h n]
+    | const v => simp only [stepOp]
+  | unary u => simp only [stepOp]
+  | binary b => simp only [stepOp]
+
+theorem runOps_congr (cfg : EvalCfg) {σ τ : Bindings Val}
+    (h : ∀ n, Bindings.lookup σ n = Bindings.lookup τ n) :
+    ∀ (ops : List Op) (st : List Val), runOps cfg σ ops st = runOps cfg τ ops st
+  | [], _ => rfl
+  | op :: ops, st => by
+    simp only [runOps, stepOp_congr cfg h st op]
+    congr 1
+    funext st'
+    exact runOps_congr cfg h ops st'
 
 theorem evalBool_respects (cfg : EvalCfg) : EvRespects (evalBool cfg) := by
-  sorry
+  intro σ τ h e
+  simp only [evalBool, eval, runOps_congr cfg h e []]
 
 end Biscuit
